@@ -668,8 +668,16 @@ def buffer_rules(cc: CppCodec, rep, rule: str) -> None:
     # SetBit / get_bit address split
     for m in buf.inner:
         if m.kind == "CXXMethodDecl" and m.get("name") == "SetBit":
-            txt = [(x.get("opcode"), cc.int_value(x.inner[1])) for x in walk(m) if x.kind == "BinaryOperator" and x.get("opcode") in (">>", "&", "<<", "%", "/")]
-            ok = (">>", 3) in txt and (("&", 7) in txt or ("%", 8) in txt)
+            # the split may sit in one-expression helpers of the class (ByteAddress(i) { return i >> 3; }): read through them
+            called = {y.get("name") or y.get("referencedDecl", {}).get("name") for y in walk(m) if y.kind in ("MemberExpr", "DeclRefExpr")}
+            scope = [m]
+            for h in buf.inner:
+                if h.kind == "CXXMethodDecl" and h is not m and h.get("name") in called:
+                    hb = [c for c in h.inner if c.kind == "CompoundStmt"]
+                    if hb and len(hb[0].inner) == 1 and hb[0].inner[0].kind == "ReturnStmt":
+                        scope.append(h)
+            txt = [(x.get("opcode"), cc.int_value(x.inner[1])) for s_ in scope for x in walk(s_) if x.kind == "BinaryOperator" and x.get("opcode") in (">>", "&", "<<", "%", "/")]
+            ok = ((">>", 3) in txt or ("/", 8) in txt) and (("&", 7) in txt or ("%", 8) in txt)
             rep.check(ok, rule, F, "fcp::Buffer::SetBit", "byte = index >> 3, bit = index & 7", "canonical address split", "bit address is not split as (index >> 3, index & 7)")
 
 
